@@ -911,7 +911,7 @@ func Eval(t *Term, m Model) uint64 {
 	return e.eval(t)
 }
 
-func NewEvaluator(m Model) *evaluator { return &evaluator{m: m, memo: map[int]uint64{}} }
+func NewEvaluator(m Model) *evaluator    { return &evaluator{m: m, memo: map[int]uint64{}} }
 func (e *evaluator) Eval(t *Term) uint64 { return e.eval(t) }
 
 func (e *evaluator) eval(t *Term) uint64 {
